@@ -12,7 +12,7 @@ from . import common
 
 WEIGHTS = {
     "C01": {"redox": 3, "hand": 2, "ionic": 1, "mcs-based": 2, "rule-based": 1, "charge-trap": 1},
-    "C02": {"hand": 3, "redox": 1, "mapped": 2, "mcs-based": 1, "stereo": 1, "marker-prefix": 2},
+    "C02": {"hand": 3, "redox": 1, "mapped": 2, "mcs-based": 1, "stereo": 1, "marker-prefix": 2, "tautomer-form": 2},
     "C03": {"declined": 3, "carbon-surplus": 1, "mcs-based": 2, "hand": 1, "redox": 1},
     "C04": {"input-balanced": 4, "hand": 2, "ionic": 1, "mcs-based": 1, "rule-based": 1, "charge-trap": 1, "redox": 2},
     "C18": {"mcs-based": 2, "rule-based": 1, "input-balanced": 1, "declined": 1, "hand": 1},
@@ -105,6 +105,11 @@ def gen_plan(prop, base_seed, i, tier):
         "config": cfg,
         "sim": common.gen_sim(rng, faults=faulty),
     }
+    if prop == "C03" and faulty and rng.random() < 0.5:
+        # the late-writing worker thread only matters when the search runs in the caller's process
+        plan["config"]["n_jobs"] = 1
+        plan["sim"]["faults"]["zombie_q"] = rng.choice([0.5, 1.0, 1.0])
+        plan["sim"]["faults"].setdefault("rates", {}).setdefault("mcs_job", {})["timeout"] = rng.choice([0.3, 0.6])
     if prop == "C01" and rng.random() < 0.25:
         # a worker task of some Parallel call fails (crash point drawn over the calls the run really makes):
         # the batch may be lost, but whatever is returned as solved must still be balanced
